@@ -18,7 +18,7 @@ from sim.loadsim import LoadSim, ScheduleObserver, SimParamSource, SimRunner, hi
 from sim.simes import Installed, Outcome, SimES
 from sim.vclock import EPOCH, Proc, VClock
 
-FAULTS = ["http-400", "http-404", "http-500", "http-503x2", "http-503x4", "connx2", "timeout", "slow"]
+FAULTS = ["http-400", "http-404", "http-500", "http-503x2", "http-503x4", "connx2", "timeout", "timeout-last", "slow"]
 
 
 # ---------------------------------------------------------------------------------------------
@@ -437,6 +437,14 @@ class LoadgenHarness(Harness):
                 elif fault == "timeout":
                     fired_kind = "timeout"
                     out = Outcome(delay=d, kind="timeout")
+                elif fault == "timeout-last":
+                    # earlier wire requests of this logical request succeed, its last one runs into the client time-out
+                    nws = plans[task].get("nwire") or [1]
+                    if len(parts) < 5 or int(parts[4]) == nws[int(seq) % len(nws)] - 1:
+                        fired_kind = "timeout-after-completed-wire-request" if len(parts) >= 5 and int(parts[4]) > 0 else "timeout"
+                        out = Outcome(delay=d, kind="timeout")
+                    else:
+                        out = Outcome(delay=d, body_delay=bd)
                 else:
                     fired_kind = "slow"
                     out = Outcome(delay=min(d * 20, 30.0), body_delay=bd)
@@ -844,7 +852,7 @@ def check_timings(prop, cfg, t, ci, client, h, ys, samples, reqs, tr, wires, pro
         if t["op"] == "sim-op":
             seq = k
             fault = (plan.get("faults") or {}).get(str(seq))
-            hard = fault in ("http-400", "http-404", "http-500", "http-503x4", "timeout")
+            hard = fault in ("http-400", "http-404", "http-500", "http-503x4", "timeout", "timeout-last")
             soft = str(seq) in (plan.get("soft_fail") or {})
             w_plan = (plan.get("weights") or [1])[seq % len(plan.get("weights") or [1])]
             want_ops = 0 if (hard or soft) else w_plan
